@@ -2012,7 +2012,14 @@ def add(
 
         all_unstaged_paths = list(
             get_unstaged_changes(
-                index, r.path, filter_callback, preload_index, trust_ctime
+                index,
+                r.path,
+                filter_callback,
+                preload_index,
+                trust_ctime,
+                honor_filemode=config.get_boolean(
+                    b"core", b"filemode", os.name != "nt"
+                ),
             )
         )
 
@@ -4059,6 +4066,13 @@ def _walk_working_dir_paths(
     # Convert paths to strings for os.walk compatibility
 
     for dirpath, dirnames, filenames in os.walk(frompath):  # type: ignore[type-var]
+        # A symlink is a file to git, also when it points at a directory
+        # (os.walk lists those among the directories without entering them).
+        links = [d for d in dirnames if os.path.islink(os.path.join(dirpath, d))]  # type: ignore[call-overload]
+        if links:
+            dirnames[:] = [d for d in dirnames if d not in links]
+            filenames = filenames + links
+
         # Skip .git and below.
         if ".git" in dirnames:
             dirnames.remove(".git")
@@ -4144,7 +4158,8 @@ def get_untracked_paths(
                 entry_path = os.path.join(dir_path, entry)
                 rel_entry = os.path.join(base_rel_path, entry)
 
-                if os.path.isfile(entry_path):
+                if os.path.islink(entry_path) or os.path.isfile(entry_path):
+                    # a symlink counts as a file, dangling or not
                     if ignore_manager.is_ignored(rel_entry) is not True:
                         return True
                 elif os.path.isdir(entry_path):
